@@ -1,2 +1,106 @@
-/-! Stub driver: the model driver for this property is not built yet. -/
-def main : IO Unit := IO.println "unimplemented"
+import JoblibModel.HashStream
+import JoblibModel.IOUtil
+/-! Driver for C08.
+
+Request: `enc <old|fixed> <n> <stream-hex> <digest> … <value>` where the `n` pairs are the table
+of the digest function `H` (hex of the bytes fed to md5 ↦ the 32 hex digits `joblib.hash`
+returned), computed by the harness from the real implementation, and `<value>` is in prefix
+notation: `N` | `T` | `F` | `I<decimal>` | `D<16 hex digits>` (binary64 pattern) | `S<hex of utf-8>` |
+`Y<hex>` | `L<n> v…` list | `U<n> v…` tuple | `E<n> v…` set | `Z<n> v…` frozenset | `M<n> k v …` dict
+(children in iteration order).
+Reply: `ok <hex of encodeV H ver value>`, `missing-digest` when the model asked `H` for a stream
+that is not in the table (its stream for a key differs from the implementation's), or `bad-op`. -/
+open JoblibModel JoblibModel.HashStream JoblibModel.IOUtil
+
+def hexVal (c : Char) : Option Nat :=
+  if '0' ≤ c ∧ c ≤ '9' then some (c.toNat - '0'.toNat)
+  else if 'a' ≤ c ∧ c ≤ 'f' then some (c.toNat - 'a'.toNat + 10)
+  else none
+
+def unhex : List Char → Option (List Nat)
+  | [] => some []
+  | a :: b :: r => do
+    let x ← hexVal a
+    let y ← hexVal b
+    let rest ← unhex r
+    pure ((16 * x + y) :: rest)
+  | _ => none
+
+def hexDigit (n : Nat) : Char := Char.ofNat (if n < 10 then 48 + n else 87 + n)
+
+def hexOf (bs : List Nat) : String :=
+  String.ofList (bs.foldr (fun b acc => hexDigit (b / 16) :: hexDigit (b % 16) :: acc) [])
+
+def parseCount (s : List Char) : Option Nat := (String.ofList s).toNat?
+
+mutual
+def parseVal : Nat → List String → Option (PyVal × List String)
+  | 0, _ => none
+  | _, [] => none
+  | fuel + 1, t :: r =>
+    match t.toList with
+    | ['N'] => some (.none, r)
+    | ['T'] => some (.bool true, r)
+    | ['F'] => some (.bool false, r)
+    | 'I' :: d => (String.ofList d).toInt?.map fun i => (.int i, r)
+    | 'D' :: d => if d.length = 16 then (unhex d).map fun bs => (.float (bs.foldl (fun a b => a * 256 + b) 0), r) else none
+    | 'S' :: d => (unhex d).map fun bs => (.str bs, r)
+    | 'Y' :: d => (unhex d).map fun bs => (.bytes bs, r)
+    | 'L' :: d => do let n ← parseCount d; let (l, r') ← parseMany fuel n r; pure (.list l, r')
+    | 'U' :: d => do let n ← parseCount d; let (l, r') ← parseMany fuel n r; pure (.tuple l, r')
+    | 'E' :: d => do let n ← parseCount d; let (l, r') ← parseMany fuel n r; pure (.set l, r')
+    | 'Z' :: d => do let n ← parseCount d; let (l, r') ← parseMany fuel n r; pure (.frozenset l, r')
+    | 'M' :: d => do let n ← parseCount d; let (l, r') ← parseItems fuel n r; pure (.dict l, r')
+    | _ => none
+def parseMany : Nat → Nat → List String → Option (List PyVal × List String)
+  | 0, _, _ => none
+  | _, 0, r => some ([], r)
+  | fuel + 1, n + 1, r => do
+    let (v, r1) ← parseVal fuel r
+    let (vs, r2) ← parseMany fuel n r1
+    pure (v :: vs, r2)
+def parseItems : Nat → Nat → List String → Option (List (PyVal × PyVal) × List String)
+  | 0, _, _ => none
+  | _, 0, r => some ([], r)
+  | fuel + 1, n + 1, r => do
+    let (k, r1) ← parseVal fuel r
+    let (v, r2) ← parseVal fuel r1
+    let (vs, r3) ← parseItems fuel n r2
+    pure ((k, v) :: vs, r3)
+end
+
+def parseTable : Nat → List String → Option (List (List Nat × List Nat) × List String)
+  | 0, r => some ([], r)
+  | n + 1, s :: d :: r => do
+    let k ← unhex s.toList
+    if d.length ≠ 32 then none
+    let (t, r') ← parseTable n r
+    pure ((k, d.toList.map Char.toNat) :: t, r')
+  | _, _ => none
+
+/-- A value that is not a byte: marks a digest the table does not have. -/
+def MISSING : Nat := 999
+
+def lookupH (t : List (List Nat × List Nat)) (s : List Nat) : List Nat :=
+  match t.find? (fun p => p.1 == s) with
+  | some p => p.2
+  | none => [MISSING]
+
+def handle (line : String) : String :=
+  match tokens line with
+  | "enc" :: ver :: n :: r =>
+    match (if ver = "old" then some Version.old else if ver = "fixed" then some Version.fixed else none),
+          n.toNat? with
+    | some ver, some n =>
+      match parseTable n r with
+      | some (tab, r') =>
+        match parseVal (2 * r'.length + 2) r' with
+        | some (v, []) =>
+          let out := encodeV (lookupH tab) ver v
+          if out.any (· ≥ 256) then "missing-digest" else "ok " ++ hexOf out
+        | _ => "bad-op"
+      | none => "bad-op"
+    | _, _ => "bad-op"
+  | _ => "bad-op"
+
+def main : IO Unit := lineLoop handle
